@@ -85,54 +85,84 @@ theorem C07_contents (q : Q α) (hw : WF q) (ops : List (Op α)) :
 and index expression of `Add, Push, Pop, PopLast, Peek, Front, Each, Slice, IsEmpty`, the rotation amount and
 its guard) are the pinned ones, and the extractor recognised the statement skeleton of every method.  The
 model `Model.Queue` is built from exactly these definitions, so `C07_history` is a theorem about the
-expressions that are in the source now; a one-token change in any of them changes `Gen/Queue.lean` and this
-theorem (and the `*_def` lemmas of `Proofs.Queue`) no longer compile. -/
+expressions that are in the source now.  Each conjunct states what the fact must BE as a function of its
+arguments (`n`, `cap`, `head` range over the natural numbers the model passes) and is proved by computation
+(`gen_fact`), not by the spelling of the definition: an edit that changes a value anywhere on that domain breaks
+this theorem (and the lemmas of `Proofs.Queue`, section `facts`); a neutral respelling (`q.n < 1` for
+`q.n == 0`, swapped `||` operands, `n + head`) does not. -/
 theorem C07_current :
     Gen.Queue.recognised = true ∧
     -- Add
-    (∀ n cap, Gen.Queue.addHasRoom n cap = decide (n < cap)) ∧
-    (∀ head n, Gen.Queue.addPos head n = head + n) ∧
-    (∀ pos cap, Gen.Queue.addWraps pos cap = decide (pos ≥ cap)) ∧
-    (∀ pos cap, Gen.Queue.addWrapped pos cap = pos - cap) ∧
-    (∀ head, Gen.Queue.addRotates head = decide (head > 0)) ∧
-    (∀ head, Gen.Queue.addRotateBy head = -head) ∧
+    (∀ (n : Nat) (cap : Nat), Gen.Queue.addHasRoom n cap = decide (n < cap)) ∧
+    (∀ (head : Nat) (n : Nat), Gen.Queue.addPos head n = head + n) ∧
+    (∀ (pos : Int) (cap : Nat), Gen.Queue.addWraps pos cap = decide (pos ≥ cap)) ∧
+    (∀ (pos : Int) (cap : Nat), Gen.Queue.addWrapped pos cap = pos - cap) ∧
+    (∀ (head : Nat), Gen.Queue.addRotates head = decide (head > 0)) ∧
+    (∀ (head : Nat), Gen.Queue.addRotateBy head = -head) ∧
     -- Push
-    (∀ n cap, Gen.Queue.pushHasRoom n cap = decide (n < cap)) ∧
-    (∀ head, Gen.Queue.pushPos head = head - 1) ∧
+    (∀ (n : Nat) (cap : Nat), Gen.Queue.pushHasRoom n cap = decide (n < cap)) ∧
+    (∀ (head : Nat), Gen.Queue.pushPos head = head - 1) ∧
     (∀ pos, Gen.Queue.pushWraps pos = decide (pos < 0)) ∧
-    (∀ cap, Gen.Queue.pushWrapped cap = cap - 1) ∧
-    (∀ head, Gen.Queue.pushRotates head = decide (head > 0)) ∧
-    (∀ head, Gen.Queue.pushRotateBy head = -head) ∧
-    (∀ cap, Gen.Queue.pushGrowHead cap = cap - 1) ∧
+    (∀ (cap : Nat), Gen.Queue.pushWrapped cap = cap - 1) ∧
+    (∀ (head : Nat), Gen.Queue.pushRotates head = decide (head > 0)) ∧
+    (∀ (head : Nat), Gen.Queue.pushRotateBy head = -head) ∧
+    (∀ (cap : Nat), Gen.Queue.pushGrowHead cap = cap - 1) ∧
     -- Pop
-    (∀ n, Gen.Queue.popEmpty n = decide (n = 0)) ∧
-    (∀ n, Gen.Queue.popResets n = decide (n = 0)) ∧
+    (∀ (n : Nat), Gen.Queue.popEmpty n = decide (n = 0)) ∧
+    (∀ (n : Nat), Gen.Queue.popResets n = decide (n = 0)) ∧
     Gen.Queue.popResetHead = 0 ∧
     (∀ head cap, Gen.Queue.popHead head cap = (head + 1) % cap) ∧
     -- PopLast
-    (∀ n, Gen.Queue.popLastEmpty n = decide (n = 0)) ∧
-    (∀ head n, Gen.Queue.popLastPos head n = head + n - 1) ∧
-    (∀ pos cap, Gen.Queue.popLastWraps pos cap = decide (pos ≥ cap)) ∧
-    (∀ pos cap, Gen.Queue.popLastWrapped pos cap = pos - cap) ∧
-    (∀ n, Gen.Queue.popLastResets n = decide (n = 0)) ∧
+    (∀ (n : Nat), Gen.Queue.popLastEmpty n = decide (n = 0)) ∧
+    (∀ (head : Nat) (n : Nat), Gen.Queue.popLastPos head n = head + n - 1) ∧
+    (∀ (pos : Int) (cap : Nat), Gen.Queue.popLastWraps pos cap = decide (pos ≥ cap)) ∧
+    (∀ (pos : Int) (cap : Nat), Gen.Queue.popLastWrapped pos cap = pos - cap) ∧
+    (∀ (n : Nat), Gen.Queue.popLastResets n = decide (n = 0)) ∧
     Gen.Queue.popLastResetHead = 0 ∧
     -- Peek
     (∀ k, Gen.Queue.peekNeg k = decide (k < 0)) ∧
-    (∀ k n, Gen.Queue.peekNorm k n = k + n) ∧
-    (∀ k n, Gen.Queue.peekOut k n = (decide (k < 0) || decide (k ≥ n))) ∧
+    (∀ (k : Int) (n : Nat), Gen.Queue.peekNorm k n = k + n) ∧
+    (∀ (k : Int) (n : Nat), Gen.Queue.peekOut k n = (decide (k < 0) || decide (k ≥ n))) ∧
     (∀ head k cap, Gen.Queue.peekIdx head k cap = (head + k) % cap) ∧
     -- Front, Each, Slice, IsEmpty
-    (∀ n, Gen.Queue.frontEmpty n = decide (n = 0)) ∧
+    (∀ (n : Nat), Gen.Queue.frontEmpty n = decide (n = 0)) ∧
     (∀ cur cap, Gen.Queue.eachStep cur cap = (cur + 1) % cap) ∧
-    (∀ n, Gen.Queue.sliceEmpty n = decide (n = 0)) ∧
+    (∀ (n : Nat), Gen.Queue.sliceEmpty n = decide (n = 0)) ∧
     (∀ cur cap, Gen.Queue.sliceStep cur cap = (cur + 1) % cap) ∧
-    (∀ n, Gen.Queue.isEmptyTest n = decide (n = 0)) :=
-  ⟨rfl, fun _ _ => rfl, fun _ _ => rfl, fun _ _ => rfl, fun _ _ => rfl, fun _ => rfl, fun _ => rfl,
-   fun _ _ => rfl, fun _ => rfl, fun _ => rfl, fun _ => rfl, fun _ => rfl, fun _ => rfl, fun _ => rfl,
-   fun _ => rfl, fun _ => rfl, rfl, fun _ _ => rfl,
-   fun _ => rfl, fun _ _ => rfl, fun _ _ => rfl, fun _ _ => rfl, fun _ => rfl, rfl,
-   fun _ => rfl, fun _ _ => rfl, fun _ _ => rfl, fun _ _ _ => rfl,
-   fun _ => rfl, fun _ _ => rfl, fun _ => rfl, fun _ _ => rfl, fun _ => rfl⟩
+    (∀ (n : Nat), Gen.Queue.isEmptyTest n = decide (n = 0)) :=
+  ⟨rfl,
+   by gen_fact Gen.Queue.addHasRoom,
+   by gen_fact Gen.Queue.addPos,
+   by gen_fact Gen.Queue.addWraps,
+   by gen_fact Gen.Queue.addWrapped,
+   by gen_fact Gen.Queue.addRotates,
+   by gen_fact Gen.Queue.addRotateBy,
+   by gen_fact Gen.Queue.pushHasRoom,
+   by gen_fact Gen.Queue.pushPos,
+   by gen_fact Gen.Queue.pushWraps,
+   by gen_fact Gen.Queue.pushWrapped,
+   by gen_fact Gen.Queue.pushRotates,
+   by gen_fact Gen.Queue.pushRotateBy,
+   by gen_fact Gen.Queue.pushGrowHead,
+   by gen_fact Gen.Queue.popEmpty,
+   by gen_fact Gen.Queue.popResets,
+   by gen_fact Gen.Queue.popResetHead,
+   by gen_fact Gen.Queue.popHead,
+   by gen_fact Gen.Queue.popLastEmpty,
+   by gen_fact Gen.Queue.popLastPos,
+   by gen_fact Gen.Queue.popLastWraps,
+   by gen_fact Gen.Queue.popLastWrapped,
+   by gen_fact Gen.Queue.popLastResets,
+   by gen_fact Gen.Queue.popLastResetHead,
+   by gen_fact Gen.Queue.peekNeg,
+   by gen_fact Gen.Queue.peekNorm,
+   by gen_fact Gen.Queue.peekOut,
+   by gen_fact Gen.Queue.peekIdx,
+   by gen_fact Gen.Queue.frontEmpty,
+   by gen_fact Gen.Queue.eachStep,
+   by gen_fact Gen.Queue.sliceEmpty,
+   by gen_fact Gen.Queue.sliceStep,
+   by gen_fact Gen.Queue.isEmptyTest⟩
 
 /-! non-vacuity: a concrete history that fills `NewSize 3` with the head in the middle and then
 grows from both ends (rotate-then-grow on `Add` and on `Push`) -/
